@@ -242,12 +242,14 @@ fn c18(seed: u64, cases: usize, model_path: &str) -> serde_json::Value {
         if samples.len() < 3 { samples.push(desc); }
         // ---- (2) repeated output index, all parties
         if case % 4 == 0 {
-            let q = r.below(n as u64) as usize; let rep = vec![q, q]; let set = vec![q];
+            // a repeated index: adjacent, or separated by another party (first/last, or in the middle of a longer list)
+            let q = r.below(n as u64) as usize; let o = (q + 1 + r.below(n as u64 - 1) as usize) % n;
+            let (rep, set) = match (case / 4) % 4 { 0 => (vec![q, q], vec![q]), 1 => (vec![q, o, q], vec![q, o]), 2 => (vec![o, q, o, q], vec![o, q]), _ => (vec![o, q, q], vec![o, q]) };
             let mk = |po: &Vec<usize>| (0..n).map(|p| PartyArgs { inputs: inputs[p].clone(), p_eval: 0, p_own: p, p_out: po.clone(), tmp_dir: None }).collect::<Vec<_>>();
             let (ra, rb) = (exec::run(&good, &mk(&rep), &cfg, None), exec::run(&good, &mk(&set), &cfg, None)); execs += 2;
             *dist.entry("class:p_out_repeat".into()).or_default() += 1;
             assert_eq!(m.ask(&circ::to_line(&good)), "ok");
-            let model_rep = m.ask(&format!("vargs pown=0 len={} peval=0 pout={q},{q}", inputs[0].len())); let real_rep = cls(&ra.outs[0], sends(&ra));
+            let model_rep = m.ask(&format!("vargs pown=0 len={} peval=0 pout={}", inputs[0].len(), rep.iter().map(|x| x.to_string()).collect::<Vec<_>>().join(","))); let real_rep = cls(&ra.outs[0], sends(&ra));
             if model_rep != real_rep { disagreements.push(json!({"what": "validate(args) on a repeated output index: model vs mpc", "model": model_rep, "real": real_rep, "case": {"n": n, "p_out": rep, "circuit": circ::to_line(&good)}})); }
             let rejected = ra.outs.iter().all(|o| matches!(o, Out::Err(_))) && sends(&ra) == 0;
             if !(rejected || ra.outs == rb.outs) { failures.push(json!({"witness": "C18-b:p_out-repeats", "failure": format!("p_out={rep:?}: {:?} but as a set: {:?}", ra.outs.iter().map(short).collect::<Vec<_>>(), rb.outs.iter().map(short).collect::<Vec<_>>()), "case": {"n": n, "circuit": circ::to_line(&good)}})); }
